@@ -361,6 +361,12 @@ func (e *Engine) opNewBatch(c *cursor) *Violation {
 	if c.n(10) == 0 {
 		op.Count = 1 + c.n(70)
 	}
+	if e.P.Wide == "big" && c.n(3) == 0 {
+		op.Count = 1 + c.n(e.P.EntityCap/2)
+		if c.n(4) == 0 {
+			op.Count = e.P.CapInc*(1+c.n(3)) + c.n(3) - 1 // on and around multiples of the capacity increment
+		}
+	}
 	e.genCreation(c, op)
 	if op.Illegal == "" && e.illegalIntent(c) {
 		op.Count = -c.n(3)
